@@ -92,8 +92,12 @@ def composition(chk, pid, thorough, seed, rnd):
     chk.mc_runs.append(dict(res.summary(), name='gen_system', module='System_Gen.tla'))
     hs = [json.loads(r[1])['h'] for r in tlc.printed(res, 'SCHED')]
     if not thorough:
+        # the sampled transitions in which a waiter fires after a unit failed (withdrawals change what the scheduler
+        # reports as executing) all run; a seeded sample of the others
         rnd.shuffle(hs)
-        hs = hs[:1200]
+        hot = [h for h in hs if any(e['ev'] == 'Reply' and not e['ok'] for e in h) and any(e['ev'] == 'PollerDone' for e in h)]
+        cold = [h for h in hs if not (any(e['ev'] == 'Reply' and not e['ok'] for e in h) and any(e['ev'] == 'PollerDone' for e in h))]
+        hs = hot[:1000] + cold[:500]
     jobs = [{'id': i, 'events': h, 'drain': True} for i, h in enumerate(hs)]
     files = chk.run_harness('compose_h', jobs)
     chk.traces += len(jobs)
